@@ -702,11 +702,11 @@ def correspondence(ctx: core.Ctx) -> None:
     run_batch(ctx, [(s, cs) for s, cs in CORPUS if is_pep_text(s)], "corpus")
     run_batch(ctx, [(s, cs) for s, cs in CORPUS if not is_pep_text(s)], "corpus-poetry", poetry_ops=True)
     run_batch(ctx, [(s, ["1.0", "1.0.dev0", "1.0+x", "2"]) for s in MALFORMED], "malformed-corpus")
-    for part in chunks(gen_items(ctx, ctx.budget(2600, 22000)), 2500):
+    for part in chunks(gen_items(ctx, ctx.budget(4000, 40000)), 2500):
         run_batch(ctx, part, "gen")
-    for part in chunks(gen_poetry_items(ctx, ctx.budget(800, 6000)), 2500):
+    for part in chunks(gen_poetry_items(ctx, ctx.budget(1200, 10000)), 2500):
         run_batch(ctx, part, "gen-poetry", poetry_ops=True)
-    for part in chunks(gen_malformed(ctx, ctx.budget(1500, 12000)), 4000):
+    for part in chunks(gen_malformed(ctx, ctx.budget(2000, 20000)), 4000):
         run_batch(ctx, part, "gen-malformed")
 
 
